@@ -255,7 +255,7 @@ namespace cnl {
                                 + 1
                         > traits::positive_digits)
                     && rhs < Rhs{0}  // NOLINTNEXTLINE(bugprone-misplaced-widening-cast)
-                    && lhs > static_cast<typename traits::result>(std::numeric_limits<Rhs>::max() + rhs);
+                    && lhs > traits::max() + rhs;
             }
         };
 
